@@ -99,9 +99,9 @@ class C01(WMode):
         cfg = draw_config(rng, "linear", wmax=64, dmax=8, nodes_max=4, events=(15, 60))
         cfg["weights"] = hist_weights()
         cfg["mult"] = rng.choice([
-            {"one": 3, "small": 3, "mid": 2, "zero": 1, "ceil": 1, "half": 1, "huge": 1},
-            {"one": 1, "small": 1, "ceil": 3, "half": 3, "huge": 2},
-            {"one": 4, "small": 4, "zero": 1},
+            {"one": 3, "small": 3, "mid": 2, "zero": 1, "ceil": 1, "half": 1, "huge": 1, "pow2": 1},
+            {"one": 1, "small": 1, "ceil": 3, "half": 3, "huge": 2, "pow2": 1},
+            {"one": 4, "small": 4, "zero": 1, "pow2s": 1},
         ])
         return cfg
 
@@ -362,11 +362,11 @@ class HHMode(WMode):
         cfg["weights"] = hist_weights()
         if self.prop == "C03":
             cfg["mult"] = rng.choice([
-                {"one": 3, "small": 4, "mid": 2, "zero": 1},
-                {"one": 2, "small": 2, "mid": 1, "zero": 1, "ceil": 1, "half": 1, "huge": 1},
+                {"one": 3, "small": 4, "mid": 2, "zero": 1, "pow2s": 1},
+                {"one": 2, "small": 2, "mid": 1, "zero": 1, "ceil": 1, "half": 1, "huge": 1, "pow2": 1},
             ])
         else:
-            cfg["mult"] = {"one": 3, "small": 4, "mid": 2, "zero": 1}
+            cfg["mult"] = {"one": 3, "small": 4, "mid": 2, "zero": 1, "pow2s": 1}
         # width-1/depth-1 corner: all orders of a small weighted multiset are sampled densely
         if rng.random() < 0.15:
             cfg["width"], cfg["depth"], cfg["n_nodes"] = 1, 1, rng.randrange(1, 3)
@@ -609,10 +609,10 @@ class C05(WMode):
         cfg["weights"] = hist_weights(work=70)
         cfg["entry_weights"] = {"add": 8, "update_list": 1, "update_dict": 1, "add_ngram": 1, "update_ngram": 0.5}
         if fam == "linear":
-            cfg["mult"] = rng.choice([{"one": 2, "small": 3, "mid": 2, "zero": 1, "ceil": 1, "half": 2, "huge": 1},
-                                      {"one": 1, "small": 1, "ceil": 3, "half": 3, "huge": 2}])
+            cfg["mult"] = rng.choice([{"one": 2, "small": 3, "mid": 2, "zero": 1, "ceil": 1, "half": 2, "huge": 1, "pow2": 1},
+                                      {"one": 1, "small": 1, "ceil": 3, "half": 3, "huge": 2, "pow2": 1}])
         else:
-            cfg["mult"] = {"one": 3, "small": 4, "mid": 2, "zero": 1}
+            cfg["mult"] = {"one": 3, "small": 4, "mid": 2, "zero": 1, "pow2s": 1}
         return cfg
 
     def checker(self, cfg):
@@ -1011,7 +1011,7 @@ class C12(WMode):
         cfg["shadow_single_adds"] = True
         cfg["weights"] = {"work": 100}
         cfg["entry_weights"] = {"add": 3, "update_list": 3, "update_dict": 3, "add_ngram": 3, "update_ngram": 2}
-        cfg["mult"] = {"one": 2, "small": 4, "mid": 1.5, "zero": 1}
+        cfg["mult"] = {"one": 2, "small": 4, "mid": 1.5, "zero": 1, "pow2s": 1}
         # longer keys so that n < len, n == len and n > len all occur
         pool = [unhex(h) for h in cfg["pool"]]
         from .gen import rand_key
